@@ -35,7 +35,14 @@ RULE = (
     'ordered and may repeat a value in the entry-level codecs (no schema has '
     'uniqueItems); one pair in six there is a list variant: the same object '
     'but for one value occurring once more / once less / two values swapped '
-    'in one list. distinct = canonical JSON. '
+    'in one list. A third of the ZooKeeper payload cases write the value '
+    'over a node with a history (ops put-rewrite / update-rewrite: 1-2 '
+    'earlier objects written by put, then put / update with '
+    'check_content=True as the masterapi, cellsync and loader writers do); '
+    'the object the node held last is the same object, the same with other '
+    'key order, an ==-equal object with another bool / int / float type at '
+    '1..all leaves (non-trivial), the object but for one value, or '
+    'unrelated. distinct = canonical JSON. '
     'codecs are drawn uniformly (counters codec:<name>).')
 ASSUMPTIONS = [
     'a directory server returns what was added: attributes without values do '
@@ -146,6 +153,16 @@ def fixed_cases():
         ('zk-key-order', {'codec': 'zkpayload', 'op': 'put',
                           'a': {'b': 1, 'a': {'d': [], 'c': None}},
                           'b': {'b': 1, 'a': {'d': [], 'c': None, 'e': 0}}}),
+        # masterapi.update_appmonitor(count=1) then count=1.0 (a YAML / JSON
+        # client), create_bucket / update_server_features style rewrites
+        ('zk-rewrite-retyped', {
+            'codec': 'zkpayload', 'op': 'put-rewrite',
+            'a': {'count': 1.0, 'policy': {'shared_ip': True, 'rc': [0]}},
+            'hist_a': [{'count': 1, 'policy': {'shared_ip': 1, 'rc': [0]}}],
+            'b': {'count': 1, 'policy': {'shared_ip': True, 'rc': [False]}},
+            'hist_b': [{'count': 2},
+                       {'count': 1, 'policy': {'shared_ip': True,
+                                               'rc': [0.0]}}]}),
         ('app-18-services', {
             'codec': 'ldap_app', 'via': 'server',
             'a': {'cpu': '10%', 'memory': '1G', 'disk': '1G',
